@@ -63,11 +63,12 @@ scalar Blob
 type T { id: ID! }
 type V { v: Int }
 union U = T | V
-type Query { anInt: Int! aStr: String anEnum: Color! enums: [Color!] aDT: DT dts: [DT!]! aBlob: Blob obj: T objs: [T!]! un: U takesDT(dt: DT, c: Color): Int }
+type Query { anInt: Int! aStr: String anEnum: Color! enums: [Color!] aDT: DT dts: [DT!]! aBlob: Blob aBlobReq: Blob! blobs: [Blob!]! aDTReq: DT! obj: T objs: [T!]! un: U takesDT(dt: DT, c: Color): Int }
 """
 KIND_OPS = {
     "int": "query GetInt { anInt }", "str": "query GetStr { aStr }", "enum": "query GetEnum { anEnum }", "enum_list": "query GetEnums { enums }",
-    "scalar_native": "query GetDT { aDT }", "scalar_native_list": "query GetDTs { dts }", "scalar_parsed": "query GetBlob { aBlob }",
+    "scalar_native": "query GetDT { aDT }", "scalar_native_nonnull": "query GetDTReq { aDTReq }", "scalar_parsed_nonnull": "query GetBlobReq { aBlobReq }",
+    "scalar_parsed_list": "query GetBlobs { blobs }", "scalar_native_list": "query GetDTs { dts }", "scalar_parsed": "query GetBlob { aBlob }",
     "object": "query GetObj { obj { id } }", "object_list": "query GetObjs { objs { id } }", "union": "query GetUn { un { ... on T { id } ... on V { v } } }",
     "aliased_enum": "query GetAliased { colour: anEnum }",
 }
@@ -91,6 +92,13 @@ def kind_inputs():
     # (no custom scalar here: custom operations + dotted scalar type is the C04 finding custom_operations+custom_scalar)
     out["kind:custom_operations"] = dict(schema="enum Color { RED GREEN }\ntype T { id: ID! }\ntype Query { anEnum: Color! obj: T withArg(c: Color): Int }\n",
                                          queries=KIND_OPS["enum"] + "\n" + other + "\nquery WithArg($c: Color) { withArg(c: $c) }\n", options={"enable_custom_operations": True})
+    # non-default module names: what the plugins import from must follow the configuration
+    for k in ("object", "enum", "scalar_parsed"):
+        q = KIND_OPS[k]
+        sel = q[q.index("{") + 1: q.rindex("}")].strip()
+        out[f"kind:{k}:via_root_fragment+module_names"] = dict(schema=KIND_SCHEMA, queries=f"query ViaFrag {{ ...Part }}\n{other}\nfragment Part on Query {{ {sel} }}\n",
+                                                               options=dict(KIND_OPTIONS, fragments_module_name="my_frags", enums_module_name="my_enums", input_types_module_name="my_inputs"),
+                                                               files={"blob_scalars.py": SCALARS_PY})
     out["kind:all:forward"] = dict(schema=KIND_SCHEMA, queries="\n".join(allq) + "\n", options=KIND_OPTIONS, files={"blob_scalars.py": SCALARS_PY})
     out["kind:all:reversed"] = dict(schema=KIND_SCHEMA, queries="\n".join(reversed(allq)) + "\n", options=KIND_OPTIONS, files={"blob_scalars.py": SCALARS_PY})
     return out
@@ -204,7 +212,7 @@ def evaluate(case):
                 from mc import inputs as _inputs
                 try:
                     res, _ = refexec.execute(schema, inp["queries"], {}, lambda n, l=None: 0, operation_name=name, scalar_values={"Blob": {"b": 1}, "DT": "2020-01-02T03:04:05"})
-                    kw = kwargs_for(op, mods["input_types"]) if "input_types" in mods else {}
+                    kw = kwargs_for(op, mods[options.get("input_types_module_name", "input_types")]) if options.get("input_types_module_name", "input_types") in mods else {}
                     subs, (st_, val) = _inputs.call_and_capture_ws(mod, mods, Client, mname, kw, data=res.data)
                     ops[name] = [{"outcome": "ok" if st_ == "ok" else "exc:" + type(val).__name__, "value": norm(val) if st_ == "ok" else None,
                                   "request": {"query": " ".join((subs[0].get("query") or "").split()) if subs else None, "operationName": subs[0].get("operationName") if subs else None,
@@ -224,9 +232,9 @@ def evaluate(case):
                 return httpx.Response(200, json={"data": res.data} if not res.errors else {"data": res.data, "errors": [{"message": e.message} for e in res.errors]})
             c = clients.make_client(Client, True, handler)
             try:
-                kw = kwargs_for(op, mods["input_types"])
+                kw = kwargs_for(op, mods[options.get("input_types_module_name", "input_types")])
             except Exception as e:  # noqa
-                ops[name] = [{"error": f"kwargs: {e}"}]
+                ops[name] = [{"outcome": f"harness_kwargs_error:{e}", "request": None}]
                 continue
 
             def run(choose):
